@@ -188,8 +188,26 @@ func epCloseRace(c *RunCtx, cfg closeRaceCfg) *Result {
 	}
 	subs := make([]sub, n)
 	closedSeen := 0
+	exitAt := make([]atomic.Int64, n)
+	slow := make([]atomic.Bool, n)
+	type batchRec struct {
+		lo, hi  int
+		waitRet int64
+		pending int
+		hung    bool
+	}
+	var bmu sync.Mutex
+	var batches []*batchRec
 	out := RunBubble(c.T, func(bid string) {
-		s := NewSubject(cfg.WK, func(j varmq.Job[int]) Outcome { runs[j.Data()].Add(1); return Outcome{} }, cfg.Conc)
+		s := NewSubject(cfg.WK, func(j varmq.Job[int]) Outcome {
+			d := j.Data()
+			runs[d].Add(1)
+			if slow[d].Load() {
+				time.Sleep(3 * time.Microsecond) // batch items take (virtual) time, so that an early Wait is visible
+			}
+			exitAt[d].Store(e.Tick())
+			return Outcome{}
+		}, cfg.Conc)
 		var other *BoundQ
 		if cfg.Second {
 			other = s.Bind(QFifo, nil)
@@ -211,8 +229,22 @@ func epCloseRace(c *RunCtx, cfg closeRaceCfg) *Result {
 						for i := range items {
 							items[i] = varmq.Item[int]{Data: lo + i}
 							subs[lo+i].on, subs[lo+i].ba = true, true
+							slow[lo+i].Store(true)
 						}
-						q.AddAll(items) // acceptance per item is not reported: only "never twice" and the census apply
+						// acceptance is not reported per item; whatever part of the batch was accepted, Wait returns
+						// once those items have finished, and not before
+						b := q.AddAll(items)
+						br := &batchRec{lo: lo, hi: lo + per}
+						kk := NewKit(e, 0)
+						if kk.Await(b.Wait) {
+							br.waitRet = e.Tick()
+							br.pending = b.NumPending()
+						} else {
+							br.hung = true
+						}
+						bmu.Lock()
+						batches = append(batches, br)
+						bmu.Unlock()
 						return
 					}
 					for i := lo; i < lo+per; i++ {
@@ -271,6 +303,7 @@ func epCloseRace(c *RunCtx, cfg closeRaceCfg) *Result {
 				if nr != 0 {
 					e.Fail("C01", "rejected-ran", "close-race", fmt.Sprintf("%s: job %d was refused by the closed queue but ran", cfg, i))
 					e.Fail("C10", "rejected-ran", "close-race", fmt.Sprintf("%s: job %d was refused by the closed queue but ran", cfg, i))
+					e.Fail("C17", "refused-but-stored", "close-race", fmt.Sprintf("%s: job %d was refused by the closed queue (not counted as submitted) but was stored and ran", cfg, i))
 				}
 				continue
 			}
@@ -281,7 +314,38 @@ func epCloseRace(c *RunCtx, cfg closeRaceCfg) *Result {
 				}
 			}
 		}
-		if lost > 0 {
+		for _, br := range batches {
+			if br.hung {
+				det := fmt.Sprintf("%s: Wait on the batch [%d,%d) submitted while the queue was being closed did not return", cfg, br.lo, br.hi)
+				e.Fail("C05", "batch-wait-hang", "close-race", det)
+				e.Fail("C08", "batch-wait-hang", "close-race", det)
+				e.Fail("C10", "rejected-items-not-released", "close-race", det)
+				lost++ // the worker is not stopped below
+				continue
+			}
+			if br.pending != 0 {
+				e.Fail("C08", "pending-after-wait", "close-race", fmt.Sprintf("%s: batch [%d,%d): NumPending=%d right after Wait returned", cfg, br.lo, br.hi, br.pending))
+			}
+			for i := br.lo; i < br.hi; i++ {
+				if runs[i].Load() == 0 {
+					continue
+				}
+				if ex := exitAt[i].Load(); ex == 0 || ex > br.waitRet {
+					det := fmt.Sprintf("%s: batch [%d,%d) was partly accepted by a queue that was being closed; its Wait returned at %d, item %d finished at %d", cfg, br.lo, br.hi, br.waitRet, i, ex)
+					e.Fail("C05", "returned-before-exit", "batch/close-race", det)
+					e.Fail("C08", "wait-before-finish", "close-race", det)
+					break
+				}
+			}
+		}
+		// counters: refused submissions are not counted, nothing completes that was not submitted
+		if m := s.W.Metrics(); m.Completed() > m.Submitted() {
+			det := fmt.Sprintf("%s: Completed=%d > Submitted=%d at rest", cfg, m.Completed(), m.Submitted())
+			e.Fail("C17", "completed-above-submitted", "close-race", det)
+		}
+		if first < 0 && lost > 0 {
+			e.Stat("batch_hangs", float64(lost))
+		} else if lost > 0 {
 			det := fmt.Sprintf("%s: %d jobs were accepted by a queue that was being closed and never ran nor were cancelled (first: job %d, status %s); worker %s pending=%d processing=%d", cfg, lost, first, subs[first].h.Status(), s.W.Status(), s.W.NumPending(), s.W.NumProcessing())
 			e.Fail("C10", "close-drop", cfg.QK.String(), det)
 			e.Fail("C01", "lost", "close-race", det)
@@ -301,11 +365,14 @@ func epCloseRace(c *RunCtx, cfg closeRaceCfg) *Result {
 	return e.Result(map[string]any{"program": cfg.String()})
 }
 
-func closeRacePrograms(c *RunCtx, nq, nt int) {
+func closeRacePrograms(c *RunCtx, nq, nt int, batch ...bool) {
 	for v := 0; v < c.Q(nq, nt); v++ {
 		c.Program(fmt.Sprintf("close-race/%d", v), func(p *Prog) {
 			r := p.Rng
 			cfg := closeRaceCfg{WK: Pick(r, WPlain, WErr, WResult), QK: Pick(r, QFifo, QPrio), Conc: Pick(r, 1, 2, 4), Rounds: Pick(r, 3, 6, 10), Prods: Pick(r, 1, 2, 3), Second: r.Chance(40), Batch: r.Chance(25)}
+			if len(batch) > 0 && batch[0] {
+				cfg.Batch = true
+			}
 			p.Explore(func(pl Plan) *Result { return epCloseRace(c, cfg) },
 				ExploreOpts{Base: 4, Noise: c.Q(20, 100), K: 3, Funcs: []string{"Close", "Enqueue", "queue.Add", "Queue.Add", "AddAll", "UnregisterItem", "Register", "processNextJob"}, Pairs: c.Q(20, 100), MaxCases: c.Q(150, 1500)})
 		})
